@@ -72,6 +72,7 @@ fn main() {
         "conform" => tamper::suite_conform(&out, seed, thorough, &mut st),
         "corrupt" => tamper::suite_corrupt(&out, seed, thorough, &mut st),
         "cbytes" => tamper::suite_cbytes(&out, seed, thorough, &mut st),
+        "httpclone" => tamper::suite_httpclone(&out, seed, thorough, &mut st),
         "hostile" => tamper::suite_hostile(&out, seed, thorough, &mut st),
         "clirt" => cli::suite_clirt(&out, seed, thorough, &mut st),
         "cliclone" => cli::suite_cliclone(&out, seed, thorough, &mut st),
